@@ -479,6 +479,12 @@ fn run_p(rest: &str) -> String {
                     let (r2, d2) = run_once_test(&c2, &ops);
                     format!("{} || {} | file={}", first, r2.join(" ; "), hex(&d2))
                 }
+                "nofault" => {
+                    let mut c2 = parse_pcfg(&cfg_s.split_whitespace().collect::<Vec<_>>());
+                    c2.sink = Policy::default();
+                    let (r2, d2) = run_once_test(&c2, &ops);
+                    format!("{} || {} | file={}", first, r2.join(" ; "), hex(&d2))
+                }
                 "nometa" => {
                     let mut c2 = parse_pcfg(&cfg_s.split_whitespace().collect::<Vec<_>>());
                     c2.md = false;
